@@ -2,7 +2,7 @@
     Statements only.  Both construction paths are judged by verified checkers. *)
 From Coq Require Import List NArith Sorting.Sorted.
 From MOC.Base Require Import RangeSet.
-From MOC.Model Require Import Qty Ops1D ST Sweep2D TSIter STBuilder.
+From MOC.Model Require Import Qty Ops1D ST Sweep2D TSIter STBuilder SweepLine.
 Import ListNotations.
 Open Scope N_scope.
 
@@ -100,6 +100,30 @@ Theorem C09_cell_builder_executable_model : forall dt ds buff,
   forall e, In e (st_build dt ds buff) -> fst e <> [] /\ snd e <> [].
 Proof. exact st_build_spec. Qed.
 
+(** the streaming builder fed with (time range, space cell) observations AS WRITTEN, when no flush
+    occurs: push() with its fusion of the last buffered entry (same cell, overlapping or touching
+    ranges), then the sweep line (events sorted by position, an End before a Start at the same
+    position; multiset of open cells; start_1 = position since which the SET of open cells is
+    unchanged; an element is emitted each time that set changes).  General form for ANY correct sort
+    and any correct cell-set builder; executable instance run by the oracle. *)
+Theorem C09_sweep_line_builder_as_written : forall n ts te cell, (forall i, (i < n)%nat -> ts i < te i) ->
+  forall in2 mk2, (forall cells x, cov (mk2 cells) x <-> exists c, In c cells /\ in2 c x) -> (forall cells, cells <> [] -> mk2 cells <> []) ->
+  forall bs, StronglySorted ble bs ->
+  (forall x i, In (x, i, true) bs <-> ((i < n)%nat /\ x = ts i)) -> (forall x i, In (x, i, false) bs <-> ((i < n)%nat /\ x = te i)) -> NoDup bs ->
+  (forall t x, covE (sweep_line cell mk2 bs) t x <-> covObs n ts te cell in2 t x) /\ sch 0 (sweep_line cell mk2 bs).
+Proof. exact sweep_line_spec. Qed.
+
+Theorem C09_push_fusion_as_written : forall in2 obs buff t x,
+  (forall o, In o obs -> fst (fst o) < snd (fst o)) -> (forall b, In b buff -> fst (fst b) < snd (fst b)) ->
+  (covO in2 (fold_left push_obs obs buff) t x <-> covO in2 buff t x \/ covO in2 obs t x) /\
+  (forall b, In b (fold_left push_obs obs buff) -> fst (fst b) < snd (fst b)).
+Proof. exact push_all_cov. Qed.
+
+Theorem C09_sweep_line_executable_model : forall ds obs, (forall o, In o obs -> fst (fst o) < snd (fst o)) ->
+  (forall t x, covE (st_sweep ds obs) t x <-> exists o, In o obs /\ inr (fst o) t /\ x / 2 ^ shift Hpx 64 ds = snd o) /\
+  sch 0 (st_sweep ds obs).
+Proof. exact st_sweep_spec. Qed.
+
 Print Assumptions C09_observations_pointset.
 Print Assumptions C09_depends_on_observation_set_only.
 Print Assumptions C09_built_moc_checker_exact.
@@ -110,3 +134,6 @@ Print Assumptions C09_range2d_executable_model.
 Print Assumptions C09_store_path_as_written.
 Print Assumptions C09_cell_builder_as_written.
 Print Assumptions C09_cell_builder_executable_model.
+Print Assumptions C09_sweep_line_builder_as_written.
+Print Assumptions C09_push_fusion_as_written.
+Print Assumptions C09_sweep_line_executable_model.
